@@ -302,135 +302,92 @@ def rule_pub(rep, S, R="C02.pub"):
 
 
 def rule_exc(rep, S, d):
+    """The checking functions are summarised symbolically (sa/checkfn.py): every path of check_size / check_add / check_index /
+    check_index_strict / at() is followed through the helpers it calls and ends in a normal return or in a throw; the facts
+    on the path must then entail the side of the comparison that the outcome stands for."""
     R = "C02.exc"
-    # throwing_error<N>::check_size throws std::length_error exactly when size > N; check_add is check_size(a + b)
-    from .. import ceval
-    for f in ir.functions(d, "check_size"):
-        c = ir.enclosing_class(d, f)
-        if c is None or c.get("name") != "throwing_error" or ir.is_template_pattern(d, f):
-            continue
-        p = ir.params(f)[0].get("name")
-        cap = int(ir.template_args(c)[0]) if ir.template_args(c) else None
-        paths = flow.function_paths(f, with_ctor_inits=False)
+    from .. import checkfn
+
+    def judge(lab, what, fn, args, nonneg, throw_goal, ret_goal, exc, ret_value=None):
+        """throw_goal / ret_goal: Lin forms that must be >= 0 on the throwing / returning paths"""
+        try:
+            outs, sm = checkfn.summarise(d, fn, args)
+        except checkfn.Undecided as e:
+            rep.inconclusive(R, lab, what, where=d.where(fn), detail=str(e))
+            return
         bad = None
-
-        def symmap(t):
-            if t == ("ref", p):
-                return "size"
-            return None
-
-        def lin_c(t):
-            """linear form with constant folding of anything that is not the parameter (N, N + 1, ...)"""
-            l_ = linear.lin(t, symmap)
-            if l_ is not None:
-                return l_
-            return None
-        for path in paths:
-            facts = []
-            for s_ in path:
-                if s_[0] != "cond":
-                    continue
-                node = ir.strip(s_[1])
-                t = ir.sx(s_[1])
-                if t[0] == "bin" and t[1] in linear.NEG:
-                    op = t[1] if s_[2] else linear.NEG[t[1]]
-                    sides = []
-                    for side_n, side_t in zip(ir.ekids(node), (t[2], t[3])):
-                        l_ = linear.lin(side_t, symmap)
-                        if l_ is None or (set(l_) - {"", "size"}):
-                            try:
-                                v = ceval.ev(side_n, ceval.Ctx(d))
-                                l_ = Lin({"": v}) if v else Lin()
-                            except Exception:
-                                l_ = None
-                        sides.append(l_)
-                    if sides[0] is not None and sides[1] is not None:
-                        facts += linear.atom_facts(op, sides[0], sides[1])
-            end = path[-1]
-            over = linear.entails(facts, Lin({"size": 1, "": -(cap + 1)}), ())      # size >= N + 1
-            within = linear.entails(facts, Lin({"size": -1, "": cap}), ())          # size <= N
-            if end[0] == "escape":
-                thr = end[1]
-                ty = ir.qtype(ir.ekids(thr)[0]) if thr is not None and ir.ekids(thr) else "?"
-                if "length_error" not in ty:
-                    bad = (thr or f, "throws %s, expected std::length_error" % ty)
-                elif not over:
-                    bad = (thr or f, "throws on a path that did not establish size > N (= %s)" % cap)
-            elif end[0] == "return":
-                if ir.sx(ir.ekids(end[1])[0]) != ("ref", p):
-                    bad = (end[1], "returns something else than the checked size")
-                elif not within:
-                    bad = (end[1], "accepts a size on a path that did not establish size <= N (= %s)" % cap)
-        lab = "throwing_error<%s>::check_size" % (ir.template_args(c)[0] if ir.template_args(c) else "?")
+        nthrow = nret = 0
+        import os
+        if os.environ.get("C02_DEBUG"):
+            for facts, end in outs:
+                print("DBG", lab, [f.show() for f in facts], end if not (end[0] == "ret" and end[1] is not None) else ("ret", end[1].show()))
+        for facts, end in outs:
+            if linear.entails(facts, Lin({"": -1}), nonneg):
+                continue            # contradictory path
+            if end[0] == "throw":
+                nthrow += 1
+                if exc not in end[1]:
+                    bad = "throws %s, expected std::%s" % (end[1], exc)
+                elif not linear.entails(facts, throw_goal, nonneg):
+                    bad = "throws on a path that did not establish %s" % what.split(" for ")[-1]
+            elif end[0] == "noreturn":
+                bad = "ends in %s() instead of throwing std::%s" % (end[1], exc)
+            else:
+                nret += 1
+                if not linear.entails(facts, ret_goal, nonneg):
+                    bad = "returns normally on a path that did not establish the negation of %s" % what.split(" for ")[-1]
+                elif ret_value is not None and (end[1] is None or (end[1] - ret_value)):
+                    bad = "returns `%s`, expected `%s`" % (end[1].show() if end[1] is not None else "?", ret_value.show())
+        if not bad and not nthrow:
+            bad = "never throws"
+        if not bad and not nret:
+            bad = "never returns"
         if bad:
-            rep.violates(R, lab, "length_error exactly for size > N", where=d.where(bad[0]), detail=bad[1])
+            rep.violates(R, lab, what, where=d.where(fn), detail=bad)
         else:
-            rep.holds(R, lab, "length_error exactly for size > N", where=d.where(f), detail="%d paths" % len(paths))
-    for f in ir.functions(d, "check_add"):
-        c = ir.enclosing_class(d, f)
-        if c is None or c.get("name") != "throwing_error" or ir.is_template_pattern(d, f):
-            continue
-        a_, b_ = [p.get("name") for p in ir.params(f)]
-        rets = [x for x in ir.walk_expr(f) if x.get("kind") == "ReturnStmt"]
-        t = ir.sx(ir.ekids(rets[0])[0]) if len(rets) == 1 else None
-        loc = {v.get("name"): ir.sx(ir.ekids(v)[-1]) for v in ir.walk_expr(f) if v.get("kind") == "VarDecl" and ir.ekids(v)}
-        arg = t[2] if t is not None and t[0] == "call" and len(t) == 3 else None
-        hops = 0
-        while arg is not None and arg[0] == "ref" and arg[1] in loc and hops < 3:
-            arg = loc[arg[1]]
-            hops += 1
-        ok = t is not None and t[0] == "call" and t[1] == ("ref", "check_size") and arg in (("bin", "+", ("ref", a_), ("ref", b_)), ("bin", "+", ("ref", b_), ("ref", a_)))
-        lab = "throwing_error<%s>::check_add" % (ir.template_args(c)[0] if ir.template_args(c) else "?")
-        (rep.holds if ok else rep.violates)(R, lab, "check_size(size1 + size2)", where=d.where(f), **({} if ok else {"detail": "returns `%s`" % (ir.show(t) if t else "?")}))
-    # check_index: out_of_range exactly for pos >= size; check_index_strict(pos, size) = check_index(pos, size + 1)
+            rep.holds(R, lab, what, where=d.where(fn), detail="%d throwing and %d returning paths%s" % (
+                nthrow, nret, (", through %s" % ", ".join(sorted(set(sm.followed)))) if sm.followed else ""))
+
+    for nm in ("check_size", "check_add"):
+        for f in ir.functions(d, nm):
+            c = ir.enclosing_class(d, f)
+            if c is None or c.get("name") != "throwing_error" or ir.is_template_pattern(d, f):
+                continue
+            cap = int(ir.template_args(c)[0]) if ir.template_args(c) else None
+            if cap is None:
+                rep.inconclusive(R, "throwing_error::%s" % nm, "capacity", where=d.where(f), detail="template argument not found")
+                continue
+            lab = "throwing_error<%s>::%s" % (cap, nm)
+            if nm == "check_size":
+                tot = Lin({"size": 1})
+                judge(lab, "length_error exactly for size > N", f, [tot], ("size",), tot + Lin({"": -(cap + 1)}), -tot + Lin({"": cap}), "length_error", tot)
+            else:
+                tot = Lin({"size1": 1, "size2": 1})
+                judge(lab, "length_error exactly for size1 + size2 > N", f, [Lin({"size1": 1}), Lin({"size2": 1})], ("size1", "size2"),
+                      tot + Lin({"": -(cap + 1)}), -tot + Lin({"": cap}), "length_error", tot)
+    # check_index: out_of_range exactly for pos >= size; check_index_strict: exactly for pos > size
+    P, Z = Lin({"pos": 1}), Lin({"size": 1})
     for fn in S.fns:
         if fn.get("name") == "check_index":
-            pos, size = [p.get("name") for p in ir.params(fn)[:2]]
-            paths = flow.function_paths(fn, with_ctor_inits=False)
-            bad = None
-
-            def symmap(t):
-                return {("ref", pos): "pos", ("ref", size): "size"}.get(t)
-            for path in paths:
-                facts = fs.path_lin_facts(path, symmap)
-                inb = linear.entails(facts, Lin({"size": 1, "pos": -1, "": -1}), ("pos", "size"))
-                oob = linear.entails(facts, Lin({"pos": 1, "size": -1}), ("pos", "size"))
-                end = path[-1]
-                if end[0] == "escape":
-                    ty = ir.qtype(ir.ekids(end[1])[0]) if end[1] is not None and ir.ekids(end[1]) else "?"
-                    if not oob:
-                        bad = (end[1] or fn, "throws although pos >= size is not established")
-                    elif "out_of_range" not in ty:
-                        bad = (end[1], "throws %s, expected std::out_of_range" % ty)
-                elif not inb:
-                    bad = (fn, "returns normally on a path that did not establish pos < size")
-            lab = "%s::check_index" % S.tag
-            if bad:
-                rep.violates(R, lab, "out_of_range exactly for pos >= size", where=d.where(bad[0]), detail=bad[1])
-            else:
-                rep.holds(R, lab, "out_of_range exactly for pos >= size", where=d.where(fn))
+            judge("%s::check_index" % S.tag, "out_of_range exactly for pos >= size", fn, [P, Z, None], ("pos", "size"), P - Z, Z - P + Lin({"": -1}), "out_of_range")
         if fn.get("name") == "check_index_strict":
-            pos, size, what = [p.get("name") for p in ir.params(fn)[:3]]
-            calls = [ir.sx(n) for n in ir.walk_expr(fn) if fs.this_member_call(n) == "check_index"]
-            ok = len(calls) == 1 and calls[0][2] == ("ref", pos) and calls[0][3] in (("bin", "+", ("ref", size), ("lit", "1")), ("bin", "+", ("lit", "1"), ("ref", size)))
-            (rep.holds if ok else rep.violates)(R, "%s::check_index_strict" % S.tag, "check_index(pos, size + 1)", where=d.where(fn),
-                                                **({} if ok else {"detail": "calls %s" % [ir.show(c) for c in calls]}))
-    # at(): check_index(pos, size()) before the access
+            judge("%s::check_index_strict" % S.tag, "out_of_range exactly for pos > size", fn, [P, Z, None], ("pos", "size"), P - Z + Lin({"": -1}), Z - P, "out_of_range")
+    # at(): returns only for pos < size(), throws out_of_range otherwise
     for fn in S.fns:
         if fn.get("name") == "at":
-            p = ir.params(fn)[0].get("name")
-            paths = flow.function_paths(fn, with_ctor_inits=False)
-            ok = True
-            for path in paths:
-                chk = False
-                for s in path:
-                    if s[0] == "ev" and fs.this_member_call(s[1]) == "check_index":
-                        t = ir.sx(s[1])
-                        chk = t[2] == ("ref", p) and size_of_obj(t[3]) == ("this",)
-                    if s[0] == "ev" and fs.this_member_call(s[1]) == "operator[]" and not chk:
-                        ok = False
-            (rep.holds if ok else rep.violates)(R, "%s::%s" % (S.tag, S.label(fn)), "check_index(pos, size()) before the access", where=d.where(fn),
-                                                **({} if ok else {"detail": "the element is accessed on a path without check_index(%s, size())" % p}))
+            sz = None
+            for g in S.fns:
+                if g.get("name") == "size" and not ir.params(g):
+                    try:
+                        o_ = checkfn.summarise(d, g, [])[0]
+                        if len(o_) == 1 and o_[0][1][0] == "ret":
+                            sz = o_[0][1][1] if o_[0][1][1] is not None else Lin({"size()": 1})
+                    except checkfn.Undecided:
+                        pass
+            if sz is None or len(sz) != 1 or list(sz.values()) != [1]:
+                rep.inconclusive(R, "%s::%s" % (S.tag, S.label(fn)), "out_of_range exactly for pos >= size()", where=d.where(fn), detail="size() is not a single observable quantity")
+                continue
+            judge("%s::%s" % (S.tag, S.label(fn)), "out_of_range exactly for pos >= size()", fn, [P], ("pos",) + tuple(sz), P - sz, sz - P + Lin({"": -1}), "out_of_range")
 
 
 def rule_capacity(rep, S, cap):
